@@ -117,6 +117,24 @@ def check_helpers(ctx, f, rep, rule, which):
         if good:
             cps = ctx.paths(f, cb, 'none')
             good = len(cps) == 1 and cps[0].ret[0] == 'binop' and cps[0].ret[1] == 'Eq'
+        if not good:
+            # the same table written as a match: None -> false, Some(m) -> m.id() == id
+            rows = [p for p in ps if p.end == 'return']
+            good = len(rows) >= 2 and not any(p.writes() for p in rows)
+            seen = set()
+            for p in rows:
+                n_ev = len(p.events)
+                known = q.direct_target_is(f, p, n_ev, 2)
+                r = p.ret
+                if r[0] == 'const' and r[1] == 'bool':
+                    good = good and known is bool(r[2])
+                    seen.add(bool(r[2]))
+                else:
+                    # the comparison itself is returned: build the cond it would be and ask the same question
+                    fake = type(p)(p.events + [{'kind': 'cond', 'expr': r, 'taken': '1', 'dty': 'bool', 'depth': 0}], p.end, p.ret)
+                    good = good and q.direct_target_is(f, fake, len(fake.events), 2) is True
+                    seen.add('cmp')
+            good = good and (False in seen) and ('cmp' in seen or True in seen)
         rep.check(good, rule, b.nname, 'is_probing(id) = direct.is_some_and(|p| p.id() == id)', construct='helper')
         b, ps = single_path('probe::Probe::probe_number')
         rep.check(len(ps) == 1 and ps[0].ret == ('load', q.self_field('probe_number'), 0), rule, b.nname,
@@ -176,6 +194,19 @@ def check_helpers(ctx, f, rep, rule, which):
                     j = max([k for k in range(i) if evs[k]['kind'] == 'call' and evs[k]['res'].endswith('Iterator>::next')] or [0])
                     picks = [x for x in evs[j:i] if x['kind'] == 'cond' and x['expr'][0] == 'call' and
                              calls[x['expr'][1]]['decl'].startswith('core::ops::Fn')]
-                    good = good and len(picks) == 1 and q.cond_truth(picks[0]) is True
+                    via_filter = False
+                    if not picks and evs[j]['kind'] == 'call' and \
+                            evs[j]['res'] == '<core::iter::Filter as core::iter::Iterator>::next':
+                        # `for m in inner.iter().filter(|m| picker(m))`: the element passed the same test inside filter()
+                        it = q.pre_havoc((evs[j].get('derefs') or [None])[0] or evs[j]['args'][0])
+                        for c in p.calls():
+                            if c['res'] == 'core::iter::Iterator::filter' and q.derives_from(p, it, lambda x, cid=c['id']: x['id'] == cid):
+                                clo = c['args'][1]
+                                if clo[0] == 'agg' and clo[1] == 'closure':
+                                    cps = [x for x in ctx.paths(f, f.fn(clo[2]), 'none') if x.end == 'return']
+                                    via_filter = len(cps) == 1 and len(cps[0].calls()) == 1 and \
+                                        cps[0].calls()[0]['decl'].startswith('core::ops::Fn') and \
+                                        cps[0].ret == ('call', cps[0].calls()[0]['id'])
+                    good = good and ((len(picks) == 1 and q.cond_truth(picks[0]) is True) or via_filter)
         rep.check(good and n >= 2, rule, b.nname, 'the reservoir only ever takes members for which picker(member) was true in '
                   'that iteration', construct='helper')
